@@ -15,7 +15,7 @@ ID = 'C14'
 LEVEL = 'exploration'
 RULE = ('lookup tables (key column ascending / unsorted / duplicates / text / with blanks x value columns holding unique '
         'numbers) x lookup values (every key, between, below, above, float equal to an int key) x VLOOKUP exact/approx/default, '
-        'MATCH 0/1/default, XMATCH default/first/last, INDEX(MATCH) x result column 1..width; INDEX exhaustive over '
+        'MATCH 0/1/default, XMATCH default/first/last, INDEX(MATCH) x result column 1..width; the same lookups over whole-column tables (A:C, A:A) of a data-only sheet whose columns end at different rows; INDEX exhaustive over '
         '(r,c) in [-1..h+2]x[-1..w+2] for every shape <=4x4 incl. 2-argument vector form; ADDRESS for EVERY column '
         '1..16384 x 3 rows; COLUMN over boundary/random columns, sheet-prefixed and absolute spellings, COLUMN() in place. '
         'Approximate modes only on ascending keys. Non-trivial: lookups whose answer is not row 1 / not the first candidate, '
@@ -124,6 +124,7 @@ def plan(tier, seed):
     for i, kind in enumerate(KINDS):
         shards.append({'kind': 'lookup', 'table': kind, 'books': nb})
     shards.append({'kind': 'index'})
+    shards.append({'kind': 'wholecol', 'books': 4 if tier == 'quick' else 30})
     for part in range(4):
         shards.append({'kind': 'address', 'part': part, 'parts': 4})
     shards.append({'kind': 'column', 'n': 300 if tier == 'quick' else 5000})
@@ -158,6 +159,36 @@ def run_lookup(shard, ctx):
                    classify=classify, nontrivial=nontrivial, name=f'lk{bi}', case_extra={'keys': keys, 'table': kind}, monitor='lookup-reference')
         if bi == 0:
             r.sample({'table': kind, 'keys': keys, 'formulas': list(FORMS.values())[:5], 'lookups': [v[0][2] for v in vals[:6]]})
+
+
+def run_wholecol(shard, ctx):
+    """lookup tables given as whole columns (A:C, A:A) on a data-only sheet whose columns end at different rows: the table still has the
+    rows in which only the key column holds something"""
+    r, rng = ctx.r, ctx.rng
+    for bi in range(shard['books']):
+        n = rng.randrange(6, 11)
+        keys = sorted(rng.sample(range(1, 90), n))
+        data = {}
+        h2, h3 = rng.randrange(2, n), rng.randrange(1, n + 1)
+        for i, k in enumerate(keys):
+            data[f'A{i + 1}'] = k
+            if i < h2:
+                data[f'B{i + 1}'] = 2000 + i + 1
+            if i < h3 and rng.random() < 0.8:
+                data[f'C{i + 1}'] = 3000 + i + 1
+        forms = {'F1': 1, 'G1': 2,
+                 'H1': "=VLOOKUP(F1,Data!A:C,G1,FALSE)", 'H2': "=VLOOKUP(F1,'Data'!$A:$C,G1,TRUE)", 'H3': '=VLOOKUP(F1,Data!A:B,2,FALSE)', 'H4': '=VLOOKUP(F1,Data!A:A,1,TRUE)',
+                 'I1': '=MATCH(F1,Data!A:A,0)', 'I2': '=MATCH(F1,Data!A:A,1)', 'J1': '=XMATCH(F1,Data!A:A)', 'J2': '=XMATCH(F1,Data!A:A,0,-1)',
+                 'K1': '=INDEX(Data!A:C,MATCH(F1,Data!A:A,0),1)', 'K2': '=INDEX(Data!A:A,G1)'}
+        spec = wbspec.spec(wbspec.sheet('Calc', forms), wbspec.sheet('Data', data))
+        targets = [(0, a) for a in forms if a not in ('F1', 'G1')]
+        vals = []
+        for lv in keys + [keys[0] - 1, keys[-1] + 5, (keys[0] + keys[1]) / 2]:
+            for col in (1, 2, 3):
+                vals.append([(0, 'F1', lv), (0, 'G1', col)])
+        judge_book(ctx, ID, spec, targets, vals, exact=True, err_exact=lambda case: not case['formula'].startswith('=INDEX'), classify=classify,
+                   nontrivial=lambda case, outs: True, name=f'wc{bi}', case_extra={'keys': keys, 'table': 'wholecol'}, monitor='lookup-reference')
+    r.sample({'table': 'whole columns of uneven height', 'formulas': ['=VLOOKUP(F1,Data!A:C,G1,FALSE)', '=MATCH(F1,Data!A:A,1)']})
 
 
 def run_index(shard, ctx):
@@ -289,7 +320,7 @@ def run_shard(shard, ctx):
         if c.get('fn') == 'ADDRESS':
             return run_address({'cols': [c['col']]}, ctx)
         return replay_case(ctx, ID, c, exact=True, err_exact=lambda case: not case['formula'].startswith('=INDEX(B1') and not case['formula'].startswith('=INDEX(A1:D8,M') and not case['formula'].startswith('=INDEX(C1'), classify=classify)
-    {'lookup': run_lookup, 'index': run_index, 'address': run_address, 'column': run_column}[shard['kind']](shard, ctx)
+    {'lookup': run_lookup, 'index': run_index, 'address': run_address, 'column': run_column, 'wholecol': run_wholecol}[shard['kind']](shard, ctx)
 
 
 def finish(r, tier, seed):
